@@ -120,6 +120,7 @@ type Engine struct {
 	traceCalls   bool
 	mapReverse   bool
 	schedFork    bool
+	kafkaSt      *kafkaState
 	preemptLeft  int      // remaining preemptions on this path (verifPreemptions)
 	schedTrace   []string // preemptions taken on this path
 	enginePanic  string
@@ -185,6 +186,7 @@ func (e *Engine) resetPath() {
 	e.reportPanics = true
 	e.schedFork = false
 	e.preemptLeft = 0
+	e.kafkaSt = nil
 	e.schedTrace = nil
 	e.traceCalls = false
 	e.clockSymbolic = false
